@@ -158,7 +158,7 @@ func (d *Dynamic) Draw(ctx vxfw.DrawContext) (vxfw.Surface, error) {
 		}
 		// Get the last child so we can set our accumulated height
 		last := s.Children[len(s.Children)-1]
-		ah = last.Origin.Row + int(last.Surface.Size.Height)
+		ah = last.Origin.Row + int(last.Surface.Size.Height) + d.Gap
 	}
 
 	var colOffset int
@@ -291,8 +291,10 @@ func (d *Dynamic) Draw(ctx vxfw.DrawContext) (vxfw.Surface, error) {
 
 	// Reset origins and state based on actual draw
 	for i, ch := range s.Children {
+		// The gap below a widget counts as part of it, so that some
+		// widget anchors the scroll state when row 0 falls into a gap
 		if ch.Origin.Row <= 0 &&
-			ch.Origin.Row+int(ch.Surface.Size.Height) > 0 {
+			ch.Origin.Row+int(ch.Surface.Size.Height)+d.Gap > 0 {
 			d.scroll.top += uint(i)
 			d.scroll.offset = -ch.Origin.Row
 		}
@@ -330,8 +332,9 @@ func (d *Dynamic) insertChildren(ctx vxfw.DrawContext, p *vxfw.Surface, ah int) 
 		if err != nil {
 			return err
 		}
-		// Subtract the height of this surface and add it to the parent
-		ah -= int(s.Size.Height)
+		// Subtract the height of this surface and the gap below it, and
+		// add it to the parent
+		ah -= int(s.Size.Height) + d.Gap
 		ss := vxfw.NewSubSurface(colOffset, ah, s)
 		p.Children = slices.Insert(p.Children, 0, ss)
 
@@ -349,11 +352,11 @@ func (d *Dynamic) insertChildren(ctx vxfw.DrawContext, p *vxfw.Surface, ah int) 
 	// We reached the top widget but are below row 0. Reset the
 	if d.scroll.top == 0 && ah > 0 {
 		d.scroll.offset = 0
-		var row uint16
+		var row int
 		for i, ch := range p.Children {
-			ch.Origin.Row = int(row)
+			ch.Origin.Row = row
 			p.Children[i] = ch
-			row += ch.Surface.Size.Height
+			row += int(ch.Surface.Size.Height) + d.Gap
 		}
 		return nil
 	}
